@@ -311,6 +311,10 @@ func vFSOps() int      { return 0 }
 // writes too); natively the operating system pre-empts wherever it likes.
 func vFSSched(level int) {}
 
+// vGzipReadChunk(n): from here on the engine's gzip readers deliver at most n bytes per Read call (0: fill the buffer).
+// Natively the real gzip reader decides (one 32 KiB window per call at most).
+func vGzipReadChunk(n int) {}
+
 // vFSSnapshot / vFSRestore: the image of the harness' temporary directories at this instant / put it back
 var vFSSnaps []map[string][]byte
 
